@@ -81,7 +81,39 @@ def _thresholds(Q, normals):
     return zero, inpl & ~zero
 
 
-def _compare(rec, shape, Q, kinds, exact, F0, size, normals, sig, density, is_polygon=False):
+def _known_defect_model(kindname, q, geomdata):
+    """What the implementation returns *if only the two known absolute-threshold defects are at work* (used to
+    name buckets precisely, so that anything else in the same small-q regime is still reported):
+    zero test fires -> F(0) (times the positional phase for Sphere); in-plane test fires for a face -> that face's
+    polygon transform is replaced by its bare area in the Stokes sum."""
+    q = np.asarray(q, dtype=float)
+    q2 = float(q @ q)
+    if kindname == "Sphere":
+        R, c = geomdata
+        return 4 / 3 * np.pi * R**3 * np.exp(-1j * float(q @ c)) if np.isclose(q2, 0) else None
+    if kindname == "Polygon":
+        V, nrm, area = geomdata
+        qp = q - (q @ nrm) * nrm
+        return complex(area) if np.isclose(float(qp @ qp), 0) else None
+    V, F = geomdata
+    vol = geom.mesh_moments(V, F)["volume"]
+    if np.isclose(q2, 0):
+        return complex(vol)
+    tot = 0j
+    for f_ in F:
+        nn = geom.newell_normal(V[f_])
+        nn = nn / np.linalg.norm(nn)
+        d = float(nn @ V[f_[0]])
+        qp = q - (q @ nn) * nn
+        if np.isclose(float(qp @ qp), 0):
+            ff = geom.face_area_centroid(V[f_])[0]
+        else:
+            ff = fourier.ft_polygon(V[f_], nn, q[None, :])[0]
+        tot += (q @ nn) * (1j * ff * np.exp(-1j * (q @ nn) * d)) / q2
+    return tot
+
+
+def _compare(rec, shape, Q, kinds, exact, F0, size, normals, sig, density, is_polygon=False, model_data=None):
     n = len(Q)
     arg = Q.copy()
     got = call(shape.compute_form_factor_amplitude, arg) if density == 1.0 else call(shape.compute_form_factor_amplitude, arg, density)
@@ -102,6 +134,10 @@ def _compare(rec, shape, Q, kinds, exact, F0, size, normals, sig, density, is_po
     seen = set()
     for i in np.nonzero(bad)[0]:
         thr = "zero_q_sq_below_1e-8" if zero[i] and qs[i] > 0 else ("inplane_q_sq_below_1e-8" if inpl[i] else "none")
+        if thr != "none" and model_data is not None:
+            mdl = _known_defect_model(sig["cls"] if sig["cls"] in ("Sphere", "Polygon") else "Solid", Q[i], model_data)
+            if mdl is None or abs(got[i] - density * mdl) > density * abs(F0) * 1e-7 + tol[i]:
+                thr = "none"  # in the small-q regime, but NOT what the known defects produce
         key = (thr, int(kinds[i]))
         if key in seen:
             continue
@@ -183,7 +219,7 @@ def _solid(case, rec, convex_cls):
     vol = geom.mesh_moments(V, F)["volume"]
     dens = case["q"]["density"]
     rec.concrete = {"vertices": V, "faces": F, "q": Q[:4]}
-    got = _compare(rec, shape, Q, kinds, exact, vol, size, normals, sig, dens)
+    got = _compare(rec, shape, Q, kinds, exact, vol, size, normals, sig, dens, model_data=(V, F))
     tvec = np.asarray(case["t"]) * size
     moved = call(S.ConvexPolyhedron, V + tvec) if convex_cls else call(S.Polyhedron, V + tvec, [np.array(f_) for f_ in F], True)
     _relations(rec, shape, Q, got, vol, size, sig, dens, None if isinstance(moved, Raised) else (tvec, moved), normals)
@@ -221,7 +257,7 @@ def _polygon(case, rec):
     exact = fourier.ft_polygon(V, nrm, Q)
     dens = case["q"]["density"]
     rec.concrete = {"vertices": V, "normal": list(map(float, nrm)), "q": Q[:4]}
-    got = _compare(rec, shape, Q, kinds, exact, o["area"], size, [nrm], sig, dens, True)
+    got = _compare(rec, shape, Q, kinds, exact, o["area"], size, [nrm], sig, dens, True, model_data=(V, nrm, o["area"]))
     tvec = np.asarray(case["t"]) * size
     moved = call(S.Polygon, V + tvec, **({} if arg is None else {"normal": arg}))
     # a translation changes the phase only through its in-plane part
@@ -253,7 +289,7 @@ def _sphere(case, rec):
     vol = 4 / 3 * np.pi * R**3
     dens = case["q"]["density"]
     rec.concrete = {"radius": R, "centre": c, "q": Q[:4]}
-    got = _compare(rec, shape, Q, kinds, exact, vol, 2 * R, [], sig, dens)
+    got = _compare(rec, shape, Q, kinds, exact, vol, 2 * R, [], sig, dens, model_data=(R, c))
     tvec = np.asarray(case["t"]) * R
     moved = call(S.Sphere, R, c + tvec)
     _relations(rec, shape, Q, got, vol, 2 * R, sig, dens, None if isinstance(moved, Raised) else (tvec, moved))
